@@ -30,7 +30,8 @@ def r1_execute(ck, cx, cls):
         i_build = _index(p.ev, lambda e: e.kind == 'call' and callee_name(e.node) == 'buildPacket')
         i_write = _index(p.ev, lambda e: e.kind == 'call' and callee_name(e.node) in ('write', 'sendto', 'send') and 'transport' in U(e.node.func))
         i_reg = _index(p.ev, lambda e: e.kind == 'call' and callee_name(e.node) == '_buildResponse')
-        ok = i_tid is not None and isinstance(p.ev[i_tid].node.value, ast.Call) and U(p.ev[i_tid].node.value.func) == 'self.transaction.getNextTID'
+        tv = (getattr(p.ev[i_tid], '_sub', None) or p.ev[i_tid].node.value) if i_tid is not None else None      # a local is looked through
+        ok = isinstance(tv, ast.Call) and U(tv.func) == 'self.transaction.getNextTID'
         ck.ob('R1', f.qn, 'request.transaction_id = self.transaction.getNextTID()', ok, detail='tid-not-from-getNextTID', loc=cx.floc(f),
               message='%s does not take the request id from getNextTID()' % f.qn)
         ck.ob('R1', f.qn, 'id assigned before the packet is built', i_tid is not None and i_build is not None and i_tid < i_build,
